@@ -137,7 +137,9 @@ class ResStub:
         return v
 
     def _eval(self, fi: FuncInfo, args: Dict[str, Any]):
-        env = {"self": self, "Residue3D": ClassStub(self._repo, "tertiary", "Residue3D")}
+        from sa.blockeval import NumpyStub
+
+        env = {"self": self, "Residue3D": ClassStub(self._repo, "tertiary", "Residue3D"), "numpy": NumpyStub(), "np": NumpyStub()}
         env.update(args)
         kind, val = BlockEval(self._repo, "tertiary", env).run(fi.node.body)
         return val if kind == "return" else None
